@@ -10,7 +10,7 @@
    Two clocks: now = time.Now() on the nodes, bnow = the shared backend's expiry clock. *)
 From Coq Require Import List NArith ZArith Bool.
 Import ListNotations.
-From TX Require Import Base.Val Model.RoutingConc Proofs.Routing Proofs.RoutingRefine Proofs.RoutingConc Proofs.SideC09 Gen.C09.
+From TX Require Import Base.Val Model.RoutingConc Model.RoutingBridge Proofs.Routing Proofs.RoutingRefine Proofs.RoutingConc Proofs.RoutingBridge Proofs.SideC09 Gen.C09.
 Open Scope N_scope.
 
 (* (1) lookup_exact.  After RegisterWaitingTunnel(r) on node n1 at time T, along every history that does not
@@ -29,6 +29,20 @@ Theorem C09_routable_from_any_node :
   lookup gstr enc dec decm of_addr to_addr keep c s2 n2 (w_tunnel r) = ROk r'.
 Proof. exact routable_from_any_node. Qed.
 Print Assumptions C09_routable_from_any_node.
+
+(* The statement at full strength over ALL byte strings, i.e. without the codec hypothesis.  It is NOT claimed: Go's
+   encoding/json replaces bytes that are not valid UTF-8 by U+FFFD, so on JSON-backed stores dec (enc r) <> Some r for such
+   records (harness stream invalid_utf8, reported).  C09_routable_from_any_node is this statement under
+   dec (enc r') = Some r'; such strings cannot arrive through the JSON-decoded packets that feed startSourceBridge. *)
+Definition C09_full_statement_without_codec_hypothesis : Prop :=
+  forall gstr enc dec decm of_addr to_addr keep c s n1 r h n2,
+  keys_disjoint c -> c_route c (wait_key c (w_tunnel r)) = true -> c_ttl c <> 0 -> w_tunnel r <> [] ->
+  let r' := stamp r (now gstr s) (now gstr s + c_ttl c) in
+  Forall (fun o => ~ sets_tunnel (w_tunnel r) o) h ->
+  let s2 := final gstr enc dec decm of_addr to_addr keep c
+                  (fst (step gstr enc dec decm of_addr to_addr keep c s (ORegister n1 r))) h in
+  now gstr s2 <= now gstr s + c_ttl c -> bnow gstr s2 <= bnow gstr s + c_ttl c ->
+  lookup gstr enc dec decm of_addr to_addr keep c s2 n2 (w_tunnel r) = ROk r'.
 
 (* the same at the level of storage cells (covers a deployment WITHOUT shared cache: every node that reads the cell
    the registering node wrote - there: only that node - gets the record) *)
@@ -98,6 +112,53 @@ Theorem C09_two_phase_sweep_refuted :
   /\ ex_lookup c (fst (ex_crun true c s0 ex_sweep_threads [0; 1; 0]%nat)) 0 (w_tunnel ex_rec) = RNotFound.
 Proof. exact two_phase_sweep_refuted. Qed.
 Print Assumptions C09_two_phase_sweep_refuted.
+
+(* (1d)/(2d) the statement's own words, at the level of the call sites (Model/RoutingBridge.v: startSourceBridge registers
+   unless a bridge for the id is already indexed on that node; the end of the bridge lifecycle - whichever way - removes).
+   "While a tunnel's source end is waiting on some node, a target connection arriving at any node resolves that tunnel
+   id to the correct source node and to exactly the data that was registered": *)
+Theorem C09_waiting_bridge_routable :
+  forall gstr enc dec decm of_addr to_addr keep c s ix n r h n2,
+  keys_disjoint c -> c_route c (wait_key c (w_tunnel r)) = true -> c_ttl c <> 0 -> w_tunnel r <> [] ->
+  let r' := stamp r (now gstr s) (now gstr s + c_ttl c) in
+  dec (enc r') = Some r' ->
+  ix n (w_tunnel r) = false -> Forall (bwaiting n (w_tunnel r)) h ->
+  let (os1, ix1) := bcalls ix (BStart n r) in
+  let s2 := final gstr enc dec decm of_addr to_addr keep c
+                  (final gstr enc dec decm of_addr to_addr keep c s os1) (fst (bcompile ix1 h)) in
+  now gstr s2 <= now gstr s + c_ttl c -> bnow gstr s2 <= bnow gstr s + c_ttl c ->
+  lookup gstr enc dec decm of_addr to_addr keep c s2 n2 (w_tunnel r) = ROk r'.
+Proof. exact waiting_bridge_routable. Qed.
+Print Assumptions C09_waiting_bridge_routable.
+
+(* "After the tunnel ends ... the id no longer resolves": *)
+Theorem C09_gone_after_tunnel_end :
+  forall gstr enc dec decm of_addr to_addr keep c s ix n t h n2,
+  keys_disjoint c -> c_route c (wait_key c t) = true -> t <> [] ->
+  ix n t = true -> Forall (bquiet t) h ->
+  let (os1, ix1) := bcalls ix (BEnd n t) in
+  lookup gstr enc dec decm of_addr to_addr keep c
+         (final gstr enc dec decm of_addr to_addr keep c
+                (final gstr enc dec decm of_addr to_addr keep c s os1) (fst (bcompile ix1 h))) n2 t = RNotFound.
+Proof. exact gone_after_tunnel_end. Qed.
+Print Assumptions C09_gone_after_tunnel_end.
+
+(* non-vacuity of the two: start on node 0, rejected duplicate start with other data, another tunnel's whole life on node 1,
+   time passing; node 1 resolves node 0's record; node 0's lifecycle ends; gone on both nodes *)
+Theorem C09_bridge_example :
+  let c := cfg_hybrid true 30000000000 in
+  let '(os1, ix1) := bcalls ex_ix0 (BStart 0 ex_rec) in
+  let '(os2, ix2) := bcompile ix1 ex_bridge_history in
+  let s2 := ex_final c (ex_final c (init ex_gstr) os1) os2 in
+  Forall (bwaiting 0 (w_tunnel ex_rec)) ex_bridge_history
+  /\ ix2 0%nat (w_tunnel ex_rec) = true
+  /\ length os2 = 4%nat
+  /\ ex_lookup c s2 1 (w_tunnel ex_rec) = ROk (stamp ex_rec 0 30000000000)
+  /\ let '(os3, ix3) := bcalls ix2 (BEnd 0 (w_tunnel ex_rec)) in
+     ex_lookup c (ex_final c s2 os3) 1 (w_tunnel ex_rec) = RNotFound
+     /\ ex_lookup c (ex_final c s2 os3) 0 (w_tunnel ex_rec) = RNotFound.
+Proof. exact ex_bridge_run. Qed.
+Print Assumptions C09_bridge_example.
 
 (* (2) no_stale, first form.  After Register(r), along every history in which nobody registers the id again
    (removals, lookups, ticks of BOTH clocks by any amounts, other ids: all allowed), a lookup from any node answers
